@@ -14,6 +14,8 @@ SEEDS = [
     "La{L=2F,n=0.5//0.75}(RQ{Y=1e-3/1%/200%,n=0.8:lbl})", "R{R=10}Tlm{X_1=R{R=2}}C",
     "Tlm{X_1=RC,X_2=[L],Zeta=open:a}", "R{R=1e3/inf/inf}", "(R{R=2E+00/0/inf:a b}[C{:x{1}y}Ws])",
     "Tlm{X_1=Tlm{X_1=R,Zeta=(RC)}C, X_2=zero, Z_B=inf}", "C{C=1.5E+04/1.0E+04/1.0E+06}",
+    # version headers with every kind of number: out of the double range, fractional, zero, negative, too new
+    "!V=1e999!R(RC)", "!V=1.5!RC", "!V=0![R]", "!V=-1!R", "!V=2!R{R=1}", "!V=1e3!R", "!W=1!R", "!V=1F!R",
 ]
 ALPHABET = "RCL[](){}=/%,:! 1-e.Ffainxo_"
 
